@@ -457,6 +457,8 @@ def pred_cp_mode_dot_form(inp):
     w2 = np.ones(len(w_eff)) if out[0] is None else np.asarray(out[0])
     if not close(dense_cp(w2, [np.asarray(f) for f in out[1]]), exp, exact=is_int(exp)):
         return "cp_mode_dot does not represent the mode product of the dense tensor"
+    if tuple(out.shape) != exp.shape:
+        return f"cp_mode_dot: advertised shape {tuple(out.shape)} but represents {exp.shape}"
     return None
 
 
@@ -633,6 +635,21 @@ def integral(*arrs):
         if a.dtype.kind not in "iuf":
             return False
     return True
+
+
+def zobj_res(st, out):
+    """expected value of an entry point returning a CPTensor object: (shape attribute, (weights, factors))"""
+    if st != "ok":
+        return "Err"
+    try:
+        shape = [int(d) for d in out.shape]
+        w = np.ones(np.asarray(out[1][0]).shape[1], dtype=np.int64) if out[0] is None else np.asarray(out[0])
+        fs = [np.asarray(f) for f in out[1]]
+        if not integral(w, *fs) or any(f.ndim != 2 for f in fs) or any(d < 0 or d > 4000 for d in shape):
+            raise ValueError("not printable")
+        return f"(Ok ({C.nat_list(shape)}, ({zrow(w)}, {zmats(fs)})))"
+    except Exception:  # noqa
+        return "(Ok ([99999]%nat, ([(99999)%Z], (@nil (list (list Z))))))"
 
 
 def zcp_res(st, w, fs):
@@ -1015,17 +1032,32 @@ def run(chk):
                     for copy in (True, False):
                         inp = {"w": w, "fs": fs, "x": x, "mode": mode, "keep_dim": kd, "copy": copy, "is_class": is_class, "w_none": w_none}
                         st, out = call(cp_mode_dot, _cp_operand(inp), x.copy(), mode, keep_dim=kd, copy=copy)
-                        ow = None if st != "ok" else (np.ones(R, dtype=np.int64) if out[0] is None else out[0])
-                        lit = zcp_res(st, *((ow, out[1]) if st == "ok" else (None, None)))
+                        lit = zobj_res(st, out)
                         xl = f"(OpMat {zmat(x)})" if x.ndim == 2 else f"(OpVec {zrow(x)})"
                         emit(lambda: f"ZModeDotApi {C.boolc(is_class)} {C.boolc(copy)} {wl} {zmats(fs)} {xl} {mode}%nat {C.boolc(kd)} {lit}",
                              ("cp_mode_dot", shp(fs), "form", is_class, copy, w_none, kind))
                         judge("cp_mode_dot_form", inp, (shp(fs), is_class, copy, w_none, kind), nontrivial=False)
                     inp = {"w": w, "fs": fs, "mode": mode, "is_class": is_class, "w_none": w_none}
                     st, out = call(cp_flip_sign, _cp_operand(inp), mode, tl.sum)
-                    lit = zcp_res(st, *(out if st == "ok" else (None, None)))
+                    lit = zobj_res(st, out)
                     emit(lambda: f"ZFlipApi {C.boolc(is_class)} {wl} {zmats(fs)} {mode}%nat {lit}", ("cp_flip_sign", shp(fs), "form", is_class, w_none))
                     judge("cp_flip_sign_form", inp, (shp(fs), is_class, w_none), nontrivial=False)
+            # plain tuples the validator must refuse: weights of the wrong length, a factor with one column too many
+            bad = [(np.concatenate([w, w[:1]]), fs, "weights")]
+            if N > 1:
+                k_bad = rng.randrange(N)
+                bad.append((w, [np.concatenate([f, f[:, :1]], axis=1) if k == k_bad else f for k, f in enumerate(fs)], "ragged"))
+            for wb, fb, why in bad:
+                mode_b = rng.randrange(N)
+                xb = gen_operand(rng, fb[mode_b].shape[0], "mat")
+                st, out = call(cp_mode_dot, (wb.copy(), cps(fb)), xb.copy(), mode_b, copy=True)
+                emit(lambda: f"ZModeDotApi false true (Some {zrow(wb)}) {zmats(fb)} (OpMat {zmat(xb)}) {mode_b}%nat false {zobj_res(st, out)}",
+                     ("cp_mode_dot", shp(fb), "invalid-tuple", why))
+                st, out = call(cp_flip_sign, (wb.copy(), cps(fb)), mode_b, tl.sum)
+                emit(lambda: f"ZFlipApi false (Some {zrow(wb)}) {zmats(fb)} {mode_b}%nat {zobj_res(st, out)}", ("cp_flip_sign", shp(fb), "invalid-tuple", why))
+                chk.count(key=("cp-invalid-tuple", shp(fb), why), nontrivial=False)
+                if st == "ok":
+                    chk.finding("tensorly.cp_tensor.cp_flip_sign", {"w": wb, "fs": fb, "mode": mode_b}, f"a malformed CP tuple ({why}) was accepted", "cp_invalid_tuple")
 
     # --- (2) cp_permute_factors: assignment from the implementation, application compared exactly
     for it in range(60 * mult):
@@ -1324,6 +1356,15 @@ def run_other_formats(chk, rng, judge, mult, emit):
             lit = "Err" if st != "ok" else "(Ok [[[(99999)%Z]]])"
         emit(lambda: f"ZDecomp {zrow(w)} {zmat(A)} {zmat(B)} {zmat(Cm)} {zmats(Ps)} {zopt_mats(Ls)} {lit}", ("svd_decompress", sh([A, B, Cm]), sh(Ps), tuple(L is None for L in Ls)))
         judge("svd_decompress_parafac2_tensor", {"w": w, "fs": [A, B, Cm], "Ps": Ps, "Ls": Ls}, (sh([A, B, Cm]), sh(Ps), "int", tuple(L is None for L in Ls)))
+        # surplus loadings are ignored, a missing one raises (IndexError): the model follows
+        for Lv, why in ((Ls + [None if it % 2 else sperm(rng, 3, 2)], "surplus"), (Ls[:-1], "missing")):
+            st, out = call(lambda: svd_decompress_parafac2_tensor(Parafac2Tensor(pf), [None if L is None else L.copy() for L in Lv]))
+            if st == "ok" and integral(*out[2]) and all(np.asarray(p).ndim == 2 for p in out[2]):
+                lit = f"(Ok {zmats([np.asarray(p) for p in out[2]])})"
+            else:
+                lit = "Err" if st != "ok" else "(Ok [[[(99999)%Z]]])"
+            emit(lambda: f"ZDecomp {zrow(w)} {zmat(A)} {zmat(B)} {zmat(Cm)} {zmats(Ps)} {zopt_mats(Lv)} {lit}", ("svd_decompress", sh([A, B, Cm]), sh(Ps), why))
+            chk.count(key=("svd_decompress-lengths", sh(Ps), why), nontrivial=False)
     # --- from_CPTensor (QR tape), svd_compress_tensor_slices (SVD tape, thresholds, max_rank)
     for it in range(40 * mult):
         R = rng.randint(1, 3)
